@@ -387,9 +387,6 @@ func (vc *VC) oblige(st *State, kind, text, where, goal string, props []string) 
 		o.Result = &SolveResult{Status: "unsat", Backend: "syntactic", All: map[string]string{}}
 	}
 	vc.obls = append(vc.obls, o)
-	if os.Getenv("GOVC_DEBUG_LOOPS") != "" && strings.Contains(kind, "inv-") {
-		fmt.Fprintf(os.Stderr, "  oblige %s dry=%d n=%d\n", name, vc.dry, len(vc.obls))
-	}
 	if strings.HasPrefix(kind, "safe-") || strings.HasPrefix(kind, "pre@") || kind == "chan-capacity" || kind == "chan-close" || kind == "immutable" {
 		// execution continues only if the check passed
 		st.assume(goal)
